@@ -75,6 +75,16 @@ def handle (kind : String) (args : List String) (impl : String) : String :=
     if impl.toList.contains 'X' then s!"SPEC read-sent-to-a-node-that-is-not-a-replica-of-the-owner impl={impl}"
     else if allowed.contains impl then "ok"
     else s!"DIFF model-allows={allowed} impl={impl}"
+  | "c14.strat", phases =>
+    -- `reads_only_where_the_strategy_permits`: the strategy in force is the one of the latest configuration
+    -- update: MASTER → the owner only; REPLICA → its replica only (it has one); BOTH → either
+    let got := impl.splitOn "|"
+    let okPhase (s g : String) : Bool :=
+      if s == "M" then g == "M" else if s == "R" then g == "R" else g == "M" || g == "R" || g == "MR"
+    if got.length != phases.length then s!"DIFF phases impl={impl}"
+    else if impl.toList.contains 'X' then s!"SPEC read-sent-to-a-node-that-is-not-a-replica-of-the-owner impl={impl}"
+    else if (phases.zip got).all (fun (s, g) => okPhase s g) then "ok"
+    else s!"DIFF model-allows-per-strategy impl={impl} ; SPEC read-sent-where-the-strategy-in-force-does-not-permit impl={impl}"
   | _, _ => "bad-op"
 
 end SamVerif.Drive.C14
